@@ -15,6 +15,11 @@
 (* that the number of held blocks never exceeds the block span of the      *)
 (* largest message times 4 (the message read, the one after it, and the two *)
 (* kept by the look-behind distance) plus a constant.                     *)
+(* `Find` makes no difference between a message that is printed and one    *)
+(* that is passed over because it lies before --dt-after: both are found   *)
+(* one after the other and what lies two blocks behind is released.  For   *)
+(* streamed files the code did NOT release behind passed-over messages     *)
+(* (measured: lines high = 19 004 of 20 000); fix af9a0f03 made it agree.  *)
 (***************************************************************************)
 EXTENDS Naturals, Sequences, FiniteSets, TLC
 
